@@ -243,6 +243,26 @@ func tryReplay(l *Loaded, pc *PropConfig, r *FuncResult, d Discharge, dir string
 	return replayResult{file: file, why: "replay " + outcome}
 }
 
+// runScenario runs an input-free witness scenario against the real code.
+func runScenario(pc *PropConfig, name string, rp *Replayer, dir string) replayResult {
+	tm, err := template.New("t").Parse(rp.Template)
+	if err != nil {
+		return replayResult{why: err.Error()}
+	}
+	var src bytes.Buffer
+	if err := tm.Execute(&src, map[string]any{"Obligation": "scenario " + name, "Property": pc.ID}); err != nil {
+		return replayResult{why: err.Error()}
+	}
+	outcome, testOut := runReplayTest(rp.PkgDir, src.String())
+	file := filepath.Join(dir, fmt.Sprintf("%s-scenario-%s.json", pc.ID, sanitize(name)))
+	doc := map[string]any{"property": pc.ID, "obligation": "scenario " + name, "oracle": rp.Oracle, "package_dir": rp.PkgDir,
+		"test_source": src.String(), "test_output": truncate(testOut, 4000), "outcome": outcome,
+		"reason": "a function under contract could not be bound or an obligation stayed undecided; the property-level witness scenario was run against the real code"}
+	js, _ := json.MarshalIndent(doc, "", " ")
+	os.WriteFile(file, js, 0o644)
+	return replayResult{reproduced: outcome == "reproduced", file: file, why: outcome}
+}
+
 // runReplayTest injects the test into the package via -overlay and reports reproduced / not-reproduced / error.
 func runReplayTest(pkgDir, src string) (string, string) {
 	dir, err := os.MkdirTemp(scratch(), "replay-")
@@ -557,6 +577,161 @@ func TestGocvReplay(t *testing.T) {
 	}
 }
 `}
+	// middleware chains (C19): witness scenarios with instrumented stages
+	serverChain := &Replayer{PkgDir: "kmipserver", Oracle: "2-stage server message chain: stage 0 invokes the continuation twice with a substituted message; stage 1 and the core handler must each run twice and see the substituted message",
+		Template: `package kmipserver
+
+import (
+	"context"
+	"testing"
+
+	"github.com/ovh/kmip-go"
+	"github.com/ovh/kmip-go/payloads"
+)
+
+func gocvMsg(id string) *kmip.RequestMessage {
+	m := kmip.NewRequestMessage(kmip.V1_4, &payloads.ActivateRequestPayload{UniqueIdentifier: id})
+	return &m
+}
+
+func TestGocvReplay(t *testing.T) {
+	exec := NewBatchExecutor()
+	var s1runs, coreRuns int
+	var s1ids, coreIDs []string
+	exec.Route(kmip.OperationActivate, HandleFunc(func(ctx context.Context, req *payloads.ActivateRequestPayload) (*payloads.ActivateResponsePayload, error) {
+		coreRuns++
+		coreIDs = append(coreIDs, req.UniqueIdentifier)
+		return &payloads.ActivateResponsePayload{UniqueIdentifier: req.UniqueIdentifier}, nil
+	}))
+	alt := gocvMsg("alt")
+	exec.Use(func(next Next, ctx context.Context, msg *kmip.RequestMessage) (*kmip.ResponseMessage, error) {
+		next(ctx, alt)
+		return next(ctx, alt)
+	}, func(next Next, ctx context.Context, msg *kmip.RequestMessage) (*kmip.ResponseMessage, error) {
+		s1runs++
+		s1ids = append(s1ids, msg.BatchItem[0].RequestPayload.(*payloads.ActivateRequestPayload).UniqueIdentifier)
+		return next(ctx, msg)
+	})
+	exec.HandleRequest(context.Background(), gocvMsg("orig"))
+	if s1runs != 2 || coreRuns != 2 {
+		t.Fatalf("GOCV-REPRODUCED: {{.Obligation}}: stage 0 invoked the continuation twice, but stage 1 ran %d time(s) and the core handler %d time(s)", s1runs, coreRuns)
+	}
+	for _, id := range append(s1ids, coreIDs...) {
+		if id != "alt" {
+			t.Fatalf("GOCV-REPRODUCED: {{.Obligation}}: inner stages did not receive the message passed on by their predecessor: stage 1 saw %v, core saw %v", s1ids, coreIDs)
+		}
+	}
+}
+`}
+	replayers["(*kmipserver.BatchExecutor).HandleRequest$1"] = serverChain
+	replayers["(*kmipserver.BatchExecutor).nextAt$1"] = serverChain
+	replayers["(*kmipserver.BatchExecutor).HandleRequest"] = serverChain
+	itemChain := &Replayer{PkgDir: "kmipserver", Oracle: "2-stage batch-item chain: stage 0 invokes the continuation twice; stage 1 and the handler must run twice; a stage short-circuiting with (nil, err) must yield a failed item, not a panic",
+		Template: `package kmipserver
+
+import (
+	"context"
+	"errors"
+	"testing"
+
+	"github.com/ovh/kmip-go"
+	"github.com/ovh/kmip-go/payloads"
+)
+
+func TestGocvReplay(t *testing.T) {
+	mk := func() (*BatchExecutor, *int) {
+		exec := NewBatchExecutor()
+		n := new(int)
+		exec.Route(kmip.OperationActivate, HandleFunc(func(ctx context.Context, req *payloads.ActivateRequestPayload) (*payloads.ActivateResponsePayload, error) {
+			*n++
+			return &payloads.ActivateResponsePayload{UniqueIdentifier: req.UniqueIdentifier}, nil
+		}))
+		return exec, n
+	}
+	msg := kmip.NewRequestMessage(kmip.V1_4, &payloads.ActivateRequestPayload{UniqueIdentifier: "x"})
+	{
+		exec, core := mk()
+		s1 := 0
+		exec.BatchItemUse(func(next BatchItemNext, ctx context.Context, bi *kmip.RequestBatchItem) (*kmip.ResponseBatchItem, error) {
+			next(ctx, bi)
+			return next(ctx, bi)
+		}, func(next BatchItemNext, ctx context.Context, bi *kmip.RequestBatchItem) (*kmip.ResponseBatchItem, error) {
+			s1++
+			return next(ctx, bi)
+		})
+		exec.HandleRequest(context.Background(), &msg)
+		if s1 != 2 || *core != 2 {
+			t.Fatalf("GOCV-REPRODUCED: {{.Obligation}}: stage 0 invoked the continuation twice, but stage 1 ran %d time(s) and the handler %d time(s)", s1, *core)
+		}
+	}
+	{
+		exec, _ := mk()
+		exec.BatchItemUse(func(next BatchItemNext, ctx context.Context, bi *kmip.RequestBatchItem) (*kmip.ResponseBatchItem, error) {
+			return nil, errors.New("denied")
+		})
+		var resp *kmip.ResponseMessage
+		func() {
+			defer func() {
+				if p := recover(); p != nil {
+					t.Fatalf("GOCV-REPRODUCED: {{.Obligation}}: a batch-item middleware short-circuiting with (nil, err) makes the server panic: %v", p)
+				}
+			}()
+			resp = exec.HandleRequest(context.Background(), &msg)
+		}()
+		if resp == nil || len(resp.BatchItem) != 1 || resp.BatchItem[0].ResultStatus != kmip.ResultStatusOperationFailed {
+			t.Fatalf("GOCV-REPRODUCED: {{.Obligation}}: short-circuit with an error is not reported as a failed item: %+v", resp)
+		}
+	}
+}
+`}
+	replayers["(*kmipserver.BatchExecutor).executeItemWithMiddleware$1"] = itemChain
+	replayers["(*kmipserver.BatchExecutor).executeItemWithMiddleware"] = itemChain
+	replayers["(*kmipserver.BatchExecutor).itemNextAt$1"] = itemChain
+	clientChain := &Replayer{PkgDir: "kmipclient", Oracle: "2-stage client chain: stage 0 invokes the continuation twice; stage 1 (which answers itself) must run twice and receive the message passed on",
+		Template: `package kmipclient
+
+import (
+	"context"
+	"testing"
+
+	"github.com/ovh/kmip-go"
+	"github.com/ovh/kmip-go/payloads"
+)
+
+func TestGocvReplay(t *testing.T) {
+	c := &Client{}
+	alt := kmip.NewRequestMessage(kmip.V1_4, &payloads.ActivateRequestPayload{UniqueIdentifier: "alt"})
+	orig := kmip.NewRequestMessage(kmip.V1_4, &payloads.ActivateRequestPayload{UniqueIdentifier: "orig"})
+	s1 := 0
+	var seen []*kmip.RequestMessage
+	c.middlewares = []Middleware{
+		func(next Next, ctx context.Context, msg *kmip.RequestMessage) (*kmip.ResponseMessage, error) {
+			next(ctx, &alt)
+			return next(ctx, &alt)
+		},
+		func(next Next, ctx context.Context, msg *kmip.RequestMessage) (*kmip.ResponseMessage, error) {
+			s1++
+			seen = append(seen, msg)
+			return &kmip.ResponseMessage{}, nil
+		},
+	}
+	var p any
+	func() {
+		defer func() { p = recover() }()
+		c.Roundtrip(context.Background(), &orig)
+	}()
+	if s1 != 2 {
+		t.Fatalf("GOCV-REPRODUCED: {{.Obligation}}: stage 0 invoked the continuation twice, but stage 1 ran %d time(s) (panic: %v)", s1, p)
+	}
+	for _, m := range seen {
+		if m != &alt {
+			t.Fatalf("GOCV-REPRODUCED: {{.Obligation}}: stage 1 did not receive the message passed on by stage 0")
+		}
+	}
+}
+`}
+	replayers["(*kmipclient.Client).Roundtrip$1"] = clientChain
+	replayers["(*kmipclient.Client).nextAt$1"] = clientChain
 	replayers["ttlv.bytesToBigInt"] = &Replayer{PkgDir: "ttlv", Inputs: []ReplayInput{{Name: "V", Expr: "v", Kind: "bytes"}},
 		Oracle: "bytesToBigInt on the model's bytes returns normally and leaves its argument unchanged",
 		Template: strings.Replace(replayPrelude, "{{.Pkg}}", "ttlv", 1) + `
